@@ -292,6 +292,8 @@ func newResolver(l *Loaded, info *types.Info, fn ast.Node) *resolver {
 				count[obj]++
 				if len(v.Lhs) == len(v.Rhs) {
 					r.defs[obj] = v.Rhs[i]
+				} else if i == 0 && len(v.Lhs) == 2 && len(v.Rhs) == 1 && isCommaOk(v.Rhs[0]) {
+					r.defs[obj] = v.Rhs[0] // m, ok := x[k]
 				} else {
 					r.defs[obj] = nil
 				}
@@ -541,7 +543,7 @@ func buildSiteDB(l *Loaded, pkgs ...string) *SiteDB {
 				if cur := newMust[tf.Obj]; cur[top] {
 					newMust[tf.Obj] = held.must
 				} else {
-					newMust[tf.Obj] = interSet(cur, held.must)
+					newMust[tf.Obj] = meetLocks(cur, held.must)
 				}
 			}
 		}
@@ -1114,4 +1116,49 @@ func clonePaths(in []FactSet) []FactSet {
 		out[i] = p.copy()
 	}
 	return out
+}
+
+func isCommaOk(e ast.Expr) bool {
+	switch unparen(e).(type) {
+	case *ast.IndexExpr, *ast.TypeAssertExpr:
+		return true
+	}
+	return false
+}
+
+// meetLocks is the interprocedural meet of two held-lock sets: identical tokens are kept;
+// a lock class held in the same mode at both sites but on different (or untranslatable)
+// instances is kept with the anonymous instance "?".
+func meetLocks(a, b map[string]bool) map[string]bool {
+	o := map[string]bool{}
+	for t := range a {
+		if b[t] {
+			o[t] = true
+		}
+	}
+	type cm struct{ c, m string }
+	ca, cb := map[cm]bool{}, map[cm]bool{}
+	for t := range a {
+		c, m, _ := parseLockToken(t)
+		ca[cm{c, m}] = true
+	}
+	for t := range b {
+		c, m, _ := parseLockToken(t)
+		cb[cm{c, m}] = true
+	}
+	for k := range ca {
+		if cb[k] && k.m != "" {
+			found := false
+			for t := range o {
+				c, m, _ := parseLockToken(t)
+				if c == k.c && m == k.m {
+					found = true
+				}
+			}
+			if !found {
+				o[k.c+":"+k.m+"@?"] = true
+			}
+		}
+	}
+	return o
 }
